@@ -105,6 +105,8 @@ type Gen struct {
 	axiomTerms []string
 	heapSorts  map[string]Sort
 	heapRange  map[string][2]string // heaps of small integers: lo, hi of every cell
+	aliases    map[string]map[string]string // package path -> import alias -> imported path
+	heapCell   map[string]types.Type        // heap key -> Go type of one cell
 }
 
 func (g *Gen) note(f string, a ...any) { g.notes[fmt.Sprintf(f, a...)] = true }
@@ -130,6 +132,7 @@ type FnCtx struct {
 	allocN  int
 	retReach []Term
 	lemma     *Lemma
+	havocState *State
 	lemmaVars map[string]TV
 	results []*ssa.Alloc // named result allocs in order, if any
 	curPos  token.Pos
@@ -266,6 +269,7 @@ func (g *Gen) heapKeyFor(t types.Type) (string, Sort) {
 		key = "H_" + shortTypeName(t.Underlying())
 	}
 	g.heapSorts[key] = arraySort(SInt, s)
+	g.heapCell[key] = t
 	if lo, hi, ok := intRange(t); ok {
 		g.heapRange[key] = [2]string{bigLit(lo).S, bigLit(hi).S}
 	}
@@ -284,6 +288,7 @@ func (g *Gen) elemHeapKey(elem types.Type) (string, Sort) {
 		}
 	}
 	g.heapSorts["E_"+name] = arraySort(SInt, arraySort(SInt, s))
+	g.heapCell["E_"+name] = elem
 	if lo, hi, ok := intRange(elem); ok {
 		g.heapRange["E_"+name] = [2]string{bigLit(lo).S, bigLit(hi).S}
 	}
@@ -317,9 +322,33 @@ func (c *FnCtx) heap(st *State, key string, s Sort) Term {
 	return t
 }
 
+// sentinelFact: package-level error variables named Err* are sentinel values created once by
+// errors.New / fmt.Errorf and never reassigned: non-nil (listed assumption).
+func (c *FnCtx) sentinelFact(name string, t types.Type, v Term) {
+	if isErrorType(t) && strings.HasPrefix(name, "Err") {
+		c.define(gt(v, tZero))
+		c.g.note("sentinel error variables (Err*) are non-nil and never reassigned")
+	}
+}
+
 // heapWellTyped states that every cell of a freshly introduced heap version holds a value of its type
 // (only for heaps of machine integers, where the range matters).
 func (c *FnCtx) heapWellTyped(key string, h Term) {
+	// allocated cells hold allocated references
+	if ct, ok := c.g.heapCell[key]; ok && c.entry != nil {
+		bound := c.next(c.curState())
+		if strings.HasPrefix(key, "E_") {
+			cell := Term{fmt.Sprintf("(select (select %s p!) i!)", h.S), c.g.u.sortOf(ct)}
+			if fs := c.g.refFacts(cell, ct, bound, 2); len(fs) > 0 {
+				c.define(Term{fmt.Sprintf("(forall ((p! Int) (i! Int)) (=> (and (< 0 p!) (< p! %s)) %s))", bound.S, and(fs...).S), SBool})
+			}
+		} else if strings.HasPrefix(key, "H_") {
+			cell := Term{fmt.Sprintf("(select %s p!)", h.S), c.g.u.sortOf(ct)}
+			if fs := c.g.refFacts(cell, ct, bound, 2); len(fs) > 0 {
+				c.define(Term{fmt.Sprintf("(forall ((p! Int)) (=> (and (< 0 p!) (< p! %s)) %s))", bound.S, and(fs...).S), SBool})
+			}
+		}
+	}
 	r, ok := c.g.heapRange[key]
 	if !ok {
 		return
@@ -380,6 +409,7 @@ func (c *FnCtx) load(st *State, a *Addr) Term {
 	case aGlobal:
 		key := "G_" + mangle(a.global.Pkg.Pkg.Path()+"."+a.global.Name())
 		root := c.heap(st, key, c.g.u.sortOf(a.rootType))
+		c.sentinelFact(a.global.Name(), a.rootType, root)
 		return c.readPath(root, a.path)
 	case aHeap:
 		key, s := c.g.heapKeyFor(a.rootType)
@@ -1033,6 +1063,15 @@ func (c *FnCtx) enterLoop(li *loopInfo, entry *State, entryReach Term) (*State, 
 		}
 		st.locals[a] = c.freshTyped("h_"+a.Comment, a.Type().(*types.Pointer).Elem())
 	}
+	// NEXT first, so that the heap versions introduced below are bounded by the loop-head NEXT
+	if li.modHeaps[nextKey] {
+		before := c.next(st)
+		c.next(c.entry)
+		st.heaps[nextKey] = c.fresh("h_NEXT", SInt)
+		c.define(ge(st.heaps[nextKey], before))
+	}
+	c.havocState = st
+	defer func() { c.havocState = nil }()
 	for _, k := range sortedKeys(li.modHeaps) {
 		srt, ok := c.g.heapSorts[k]
 		if !ok {
@@ -1040,10 +1079,6 @@ func (c *FnCtx) enterLoop(li *loopInfo, entry *State, entryReach Term) (*State, 
 			return nil, tFalse
 		}
 		if k == nextKey {
-			before := c.next(st)
-			c.next(c.entry)
-			st.heaps[k] = c.fresh("h_NEXT", SInt)
-			c.define(ge(st.heaps[k], before))
 			continue
 		}
 		c.heap(c.entry, k, srt) // make sure version 0 exists
